@@ -210,6 +210,15 @@ class Engine:
     def coerce(self, v, t: T, node=None):
         if isinstance(v, V) and v.t == t:
             return v
+        if isinstance(v, VPy) and isinstance(v.obj, tuple) and len(v.obj) == 4 and v.obj[0] == 'choice':
+            _, c_, a_, b_ = v.obj
+            x, y = self.coerce(a_, t, node), self.coerce(b_, t, node)
+            return V(t, z3.If(c_, x.term, y.term))
+        hook = getattr(self.world, 'coerce_hook', None)
+        if hook is not None:
+            r = hook(self, v, t, node)
+            if r is not None:
+                return r
         if isinstance(v, VNone):
             if isinstance(t, TOpt):
                 return V(t, t.none())
